@@ -153,15 +153,33 @@ def parse_op(s):
     if kind in ("slist", "gsl"):
         return (kind, name, ("sl", [unhex(s.next()) for _ in range(s.int())]))
     if kind == "map":
-        s.next()  # allowNested
+        an = s.next() == "1"
         m = {}
         for _ in range(s.int()):
             key = unhex(s.next())
             m[key] = parse_value(s)
-        return (kind, name, ("m", m))
+        return ("map" if an else "map0", name, ("m", m))
     if kind == "list":
         return (kind, name, ("a", [parse_value(s) for _ in range(s.int())]))
     raise ValueError("bad op %r" % kind)
+
+
+def write_must_succeed(kind, name, val):
+    """the guards of field_write_succeeds / strlist_write_succeeds / container_write_succeeds for one
+    setter call on an empty bucket: usable field name, supported value within bbolt's limits"""
+    if len(name) == 0 or len(name) > 32768:
+        return False
+    if kind == "req" and len(val[1]) == 0:
+        return False
+    if val[0] == "sl":
+        return all(len(x) + 1 <= 32768 for x in val[1])
+    if val[0] == "m":
+        if kind == "map0" and any(x[0] in ("m", "a") for x in val[1].values()):
+            return False
+        return value_guard_ok(val)
+    if val[0] == "a":
+        return value_guard_ok(val)
+    return True
 
 
 def parse_scenario(case):
@@ -216,6 +234,8 @@ def scenario_oracle(case, impl_line):
         idx += 1
         assert sec[0] == "P"
         if sec[1] != "ok":
+            if not state and len(phases) == 1 and len(ops) == 1 and chk is None and write_must_succeed(*ops[0]):
+                bad.append(("write-refused", "a %s call with a supported value on an empty bucket fails (%s)" % (ops[0][0], sec[1])))
             continue
         d = sec.index("D")
         after = parse_dump(Toks(sec[d:]))
@@ -389,6 +409,9 @@ def main(argv):
                     encodings[enc] = comps
                     if i != m:
                         disagreements.append(("K", case, i, m))
+            elif fi[1] == "err" and all(len(unhex(x)) <= 4096 for x in comps):
+                c.violation("C13:compound-key-refused", "EncodeStringSlice refuses a list whose components are all within MaxLinkedSetKeySize (lengths %s)"
+                            % [len(unhex(x)) for x in comps][:8], dict(case=case, impl=i, model=m))
             elif i != m:
                 disagreements.append(("K", case, i, m))
             if comps:
